@@ -239,8 +239,26 @@ def generate(seed: int, run: int, tier: str) -> dict:
                 ops.append(dop)
             else:
                 ops.append({"op": "build", "ast": ast, "mode": mode, "evict": evict})
+    if rng.random() < 0.2 and len(asts) >= 1:
+        # two or three caller threads evaluate expressions at the same time
+        n_thr = rng.choice([2, 2, 3])
+        conc = [rng.choice(asts) if rng.random() < 0.5 else _template(rng, cfg) for _ in range(n_thr)]
+        conc = [a for a in conc if _size(a) <= 20 and "vf" not in core.canon(a)] or [["dot", ["v", 0], ["v", 1]], ["cross", ["v", 1], ["v", 0]]]
+        while len(conc) < 2:
+            conc.append(["mixed", ["v", 0], ["vadd", ["v", 1], ["v", 0]], ["v", 2 % nv]])
+        n_sw = rng.choice([1, 3, 8, 20, 60])
+        ops.append({"op": "concurrent", "asts": conc, "switch": sorted(rng.sample(range(1, rng.choice([60, 300, 1500])), min(n_sw, 50)))})
     env = {"hashseed": rng.choice([0, 1, 7, 42]), "cache": rng.choice([1000, 1000, 1000, 25])}
     return {"prop": PROP, "seed": seed, "run": run, "env": env, "timeout": 120, "idseed": rng.getrandbits(48), "reuse_ids": rng.random() < 0.4, "ops": ops}
+
+
+def systematic_jobs(tier: str, seed: int, ctx) -> list[dict]:
+    jobs = []
+    n = 4600 if tier == "quick" else 20000
+    for i, env in enumerate([{"hashseed": 0, "cache": 1000}, {"hashseed": 7, "cache": 25}]):
+        jobs.append({"prop": PROP, "seed": seed, "run": f"sys:session:{i}", "env": env, "timeout": 900, "idseed": 1000 + i, "reuse_ids": bool(i),
+                     "ops": [{"op": "fresh", "order": [0, 1, 2], "vids": [], "assume": [], "fargs": [], "sorder": []}, {"op": "session", "n": n, "rot": i}]})
+    return jobs
 
 
 # ============================================================================ child side
@@ -951,6 +969,171 @@ def _needs_world(world: World, ast) -> None:
         _fresh(world, {"order": [], "vids": [], "assume": (world.assumes + ["none"] * acc["ns"])[:max(acc["ns"], len(world.assumes))], "fargs": (world.fargs + [["t"]] * acc["nf"])[:max(acc["nf"], len(world.fargs))]})
 
 
+class _Baton:
+    """Deterministic scheduler for real threads: exactly one worker runs at a time; at every line
+    event inside the vectors package a global counter advances and, at the counts listed in the
+    schedule, the running thread hands the baton to the next unfinished one."""
+
+    def __init__(self, n: int, switch_at, files):
+        import threading  # pylint: disable=import-outside-toplevel
+        self.sems = [threading.Semaphore(0) for _ in range(n)]
+        self.done = [False] * n
+        self.count = 0
+        self.switches = 0
+        self.switch_at = set(switch_at)
+        self.files = files
+        self.local = threading.local()
+
+    def tracer(self, frame, event, arg):  # global trace function of a worker thread
+        if event == "call" and frame.f_code.co_filename in self.files:
+            return self.line
+        return None
+
+    def line(self, frame, event, arg):
+        if event == "line":
+            self.count += 1
+            if self.count in self.switch_at:
+                self.yield_to_next()
+        return self.line
+
+    def yield_to_next(self) -> None:
+        me = self.local.idx
+        n = len(self.sems)
+        for k in range(1, n + 1):
+            j = (me + k) % n
+            if j != me and not self.done[j]:
+                self.switches += 1
+                self.sems[j].release()
+                self.sems[me].acquire()
+                return
+
+    def finish(self) -> None:
+        me = self.local.idx
+        self.done[me] = True
+        for k in range(1, len(self.sems) + 1):
+            j = (me + k) % len(self.sems)
+            if not self.done[j]:
+                self.sems[j].release()
+                return
+
+
+def _concurrent(op: dict, world: World, ids):
+    import sys  # pylint: disable=import-outside-toplevel
+    import threading  # pylint: disable=import-outside-toplevel
+    import mpmath  # pylint: disable=import-outside-toplevel
+    import symplyphysics.core.experimental.miscellaneous as misc  # pylint: disable=import-outside-toplevel
+    vm = _STATE["vm"]
+    asts = op["asts"]
+    for a_ in asts:
+        _needs_world(world, a_)
+        _touch_leaves(a_, world)
+    ids.begin_op(None)
+    baton = _Baton(len(asts), op.get("switch", []), {vm.__file__, misc.__file__})
+    results: list = [None] * len(asts)
+    errors: list = [None] * len(asts)
+
+    def work(i):
+        baton.local.idx = i
+        baton.sems[i].acquire()
+        sys.settrace(baton.tracer)
+        try:
+            results[i] = _build(asts[i], world, None)
+        except RecursionError:
+            errors[i] = ("nontermination", "RecursionError in a worker thread; cycle: " + _tb_cycle())
+        except StepBudget:
+            errors[i] = ("budget", "")
+        except Exception as e:  # pylint: disable=broad-except
+            errors[i] = ("exception", f"{type(e).__name__}: {str(e)[:160]}; at: " + _tb_cycle(tail=True))
+        finally:
+            sys.settrace(None)
+            baton.finish()
+
+    threads = [threading.Thread(target=work, args=(i,), daemon=True) for i in range(len(asts))]
+    for t in threads:
+        t.start()
+    baton.sems[0].release()
+    for t in threads:
+        t.join(3 * OP_WALL_S)
+    info = {"switches": baton.switches, "inconclusive": []}
+    if any(t.is_alive() for t in threads):
+        info["inconclusive"].append("concurrent-wall-timeout")
+        return "wall", None, info
+    outs = []
+    for i, a_ in enumerate(asts):
+        if errors[i] is not None:
+            if errors[i][0] == "budget":
+                info["inconclusive"].append("op-step-budget")
+                continue
+            return errors[i][0], {"oracle": errors[i][0], "detail": f"thread {i} of {len(asts)} (switch points {sorted(baton.switch_at)[:8]}): {errors[i][1]}"}, info
+        outs.append(fmt(results[i], world))
+        try:
+            for point in (0, 1):
+                bind = Bindings(point, world.assumes, world.fargs)
+                lo = None
+                for dps in (DPS, 2 * DPS):
+                    dom = Domain("mp", bind, dps=dps)
+                    ref, got = ref_eval(a_, dom), out_eval(results[i], dom, world)
+                    if dps == DPS:
+                        lo = (ref, got)
+                slack = 1000 * (_err(lo[0], ref) + _err(lo[1], got))
+                if _finite(ref, mpmath.mp) and not _close(ref, got, mpmath.mp, slack):
+                    return "value", {"oracle": "value", "detail": f"thread {i} of {len(asts)} evaluated {fmt(results[i], world)[:200]}: reference {_fmt_val(ref)} != library {_fmt_val(got)} (switch points {sorted(baton.switch_at)[:8]}, {baton.switches} switches)"}, info
+        except Unknown as u:
+            info["inconclusive"].append(f"unknown:{str(u)[:60]}")
+    return hashlib.sha256("|".join(outs).encode()).hexdigest()[:16], None, info
+
+
+def _touch_leaves(ast, world: World) -> None:
+    """Creates every leaf object of an AST up front (creation is not part of the concurrent phase)."""
+    if isinstance(ast, list) and ast:
+        if ast[0] == "v":
+            _get_vec(world, ast[1])
+        for x in ast[1:]:
+            _touch_leaves(x, world)
+
+
+SESSION_TEMPLATES = [
+    lambda p, a: ["dot", ["v", p[0]], ["v", a]],
+    lambda p, a: ["dot", ["cross", ["v", p[0]], ["v", a]], ["v", p[1]]],
+    lambda p, a: ["mixed", ["v", a], ["v", p[0]], ["v", p[1]]],
+    lambda p, a: ["cross", ["v", a], ["vadd", ["v", p[0]], ["v", a]]],
+    lambda p, a: ["dot", ["vadd", ["v", a], ["v", p[2]]], ["vadd", ["v", a], ["v", p[2]]]],
+    lambda p, a: ["cross", ["cross", ["v", p[0]], ["v", a]], ["v", p[2]]],
+    lambda p, a: ["norm", ["vscale", ["q", -3, 2], ["v", a], "l"]],
+]
+
+
+def _session(op: dict, world: World, ids) -> tuple[str, dict | None]:
+    import mpmath  # pylint: disable=import-outside-toplevel
+    _needs_world(world, ["v", 0])
+    persistent = [0, 1, 2]
+    for i in persistent:
+        _get_vec(world, i)
+    bind = Bindings(0, world.assumes, world.fargs)
+    dom = Domain("mp", bind, dps=DPS)
+    h = hashlib.sha256()
+    for it in range(int(op["n"])):
+        idx = 100 + it % 97
+        _new_vec(world, idx, None)
+        ast = SESSION_TEMPLATES[(it + int(op.get("rot", 0))) % len(SESSION_TEMPLATES)](persistent, idx)
+        ids.begin_op(None)
+        try:
+            result = _build(ast, world, None)
+        except RecursionError:
+            return "violation", {"oracle": "nontermination", "detail": f"RecursionError at session step {it}; cycle: " + _tb_cycle()}
+        except Exception as e:  # pylint: disable=broad-except
+            return "violation", {"oracle": "exception", "detail": f"session step {it}: {type(e).__name__}: {str(e)[:160]}"}
+        try:
+            ref = ref_eval(ast, dom)
+            got = out_eval(result, dom, world)
+        except Unknown:
+            continue
+        if not _close(ref, got, mpmath.mp, 1e-40):
+            return "violation", {"oracle": "value", "detail": f"session step {it} ({fmt(result, world)[:120]}): reference {_fmt_val(ref)} != library {_fmt_val(got)}", "session_step": it}
+        h.update(fmt(result, world).encode())
+    return h.hexdigest()[:16], None
+
+
 def _diff_var_names(op: dict, world: World) -> list[str]:
     if op.get("vars"):
         return [v if v in world.scalars else "t" for v in op["vars"]]
@@ -997,6 +1180,24 @@ def child_run(job: dict) -> dict:
         elif kind == "fresh":
             _fresh(world, op)
             faults["epoch"] += 1
+        elif kind == "concurrent":
+            # several caller threads evaluate expressions at the same time; which thread runs is decided
+            # by the schedule alone (baton passing, pre-emption at line events inside the vectors package)
+            outcome, v_, inc_ = _concurrent(op, world, ids)
+            faults["thread_switch"] = faults.get("thread_switch", 0) + inc_.get("switches", 0)
+            faults["concurrent_op"] = faults.get("concurrent_op", 0) + 1
+            inconclusive.extend(inc_.get("inconclusive", []))
+            for a_ in op["asts"]:
+                shapes.add(_shape(a_))
+            if v_:
+                violation = dict(v_, step=step, op=op)
+        elif kind == "session":
+            # a long session: thousands of small products of a few long-lived symbols with ever new ones
+            # (state carried between calls: caches, registries, rank tables, ...)
+            outcome, v_ = _session(op, world, ids)
+            faults["session_steps"] = faults.get("session_steps", 0) + int(op["n"])
+            if v_:
+                violation = dict(v_, step=step, op=op)
         elif kind in ("build", "diff"):
             ast = op["ast"]
             _needs_world(world, ast)
@@ -1115,7 +1316,7 @@ def child_run(job: dict) -> dict:
         "inconclusive": inconclusive,
         "steps": steps,
         "id_calls": ids.calls,
-        "nontrivial": bool(fired) and any(e[1] in ("build", "diff") for e in events),
+        "nontrivial": bool(fired) and any(e[1] in ("build", "diff", "concurrent", "session") for e in events),
         "states": sorted(shapes),
         "flag_default": bool(sp.core.parameters.global_parameters.evaluate),
         "probe_universe": _STATE["all_lines"] if str(job.get("run", "")).isdigit() and int(job["run"]) % 500 == 0 else None,
@@ -1176,6 +1377,10 @@ def simplify(job: dict) -> list[dict]:
     fault parameters; tried in order, first that still fails is taken."""
     ops = job["ops"]
     out = []
+    for i, o in enumerate(ops):
+        if o["op"] == "session" and o["n"] > 8:
+            for n in (o["n"] // 2, (3 * o["n"]) // 4, o["n"] - max(1, o["n"] // 10)):
+                out.append(dict(job, ops=ops[:i] + [dict(o, n=n)] + ops[i + 1:]))
     idx = max((i for i, o in enumerate(ops) if o["op"] in ("build", "diff")), default=None)
     if idx is None:
         return out
@@ -1231,6 +1436,8 @@ def simplify(job: dict) -> list[dict]:
 
 
 def finding_key(job: dict, violation: dict) -> str:
+    if (violation.get("op") or {}).get("op") == "session":
+        return f"C14|{violation.get('oracle')}|session"
     """Specific subject of a (minimised) violation: oracle kind + the failing expression."""
     op = violation.get("op") or {}
     return f"C14|{violation.get('oracle')}|{op.get('op')}|{core.canon(op.get('ast'))}"
